@@ -21,9 +21,6 @@ Init == ZeroRegs /\ i \in 1..Len(Recs)
 Next == UNCHANGED i
 Spec == Init /\ [][Next]_i
 
-\* lookups are lists in the code: duplicates are visible only before the set conversion
-NoDupLookups(j) == Cardinality({<<p[1], p[2]>> : p \in Rng(j.t2n)}) = Len(j.t2n)
-                   /\ Cardinality({<<p[1], p[2]>> : p \in Rng(j.l2n)}) = Len(j.l2n)
 InUniverse(j) == j.extra = 0 /\ \A n \in Node : j.time[n] >= -1
 
 Rec == Recs[i]
@@ -36,15 +33,6 @@ XR == LET pre == DecO(Rec.pre) IN
 (***************************************************************************)
 (* C06 with the recorded query answers (q of the POST state)               *)
 (***************************************************************************)
-QueriesOK(j, O) ==
-    /\ NoDupLookups(j)
-    /\ \A id \in 1..Len(j.q.nbr) : \A k \in 1..(T + 2) :
-          LET t == k - 2 IN
-          /\ j.q.nbr[id][k][1] = ScanPred(O, id, t)
-          /\ j.q.nbr[id][k][2] = ScanSucc(O, id, t)
-          /\ (j.q.has[id][k] = 1) <=> ScanHas(O, id, t)
-    /\ \A n \in Present(O) : O.tid[n] # j.q.next_tid
-    /\ LidOn(O) => \A n \in Present(O) : O.lid[n] # j.q.next_lid
 \* node ids issued after the last state of the record: pairwise distinct and not in use
 NewIdsOK == /\ Cardinality(Rng(Rec.newids)) = Len(Rec.newids)
             /\ \A k \in Rng(Rec.newids) : k >= 1 /\ (k \in Node => Rec.r_post.time[k] = NoT)
